@@ -156,7 +156,11 @@ class ProxyIO:
     def read(self, nbytes: int) -> bytes:
         # TODO(typing): The IO protocol requires bytes here but ChannelFileRead
         # returns str.
-        return self.iochan_file.read(nbytes)  # type: ignore[return-value]
+        data = self.iochan_file.read(nbytes)
+        if len(data) < nbytes:
+            # the io channel ended inside (or before) the requested bytes
+            raise EOFError("expected %d bytes, got %d" % (nbytes, len(data)))
+        return data  # type: ignore[return-value]
 
     def write(self, data: bytes) -> None:
         self.iochan.send(data)
